@@ -268,6 +268,11 @@ func negotiateServer(ctx context.Context, identity, password string, permissions
 		if err != nil {
 			return 0, nil, err
 		}
+		// Flush here rather than in the deferred Close, which cannot report that
+		// the peer was never told.
+		if err = w.Flush(); err != nil {
+			return 0, nil, err
+		}
 		return Authn, session.Conn(), nil
 	}
 
